@@ -1,4 +1,4 @@
-import RosuModel.Lemmas.PerfCalcOsu4
+import RosuModel.Lemmas.PerfCalcOsu5
 import RosuModel.Gen.PerfConsts
 
 /-!
@@ -338,6 +338,47 @@ theorem osu_pp_nonneg (sf : Special ℝ) (a : OsuAttrs ℝ) (m : OsuMods) (s : O
       ∧ (osuCalculate sf a m s lazer classic).effectiveMissCount ≤ (s.totalHits : ℝ) :=
   osuCalculatorCalculate_nonneg sf _ (osu_calc_base a m s lazer classic hh) H D
 
+/-- the speed-deviation block (`calculate_speed_deviation`, `calculate_deviation`): in-domain on the
+path taken and positive when present, from `ErfFacts`, positive great/ok hit windows and
+`speed_note_count ≥ 0` (no hypothesis on the meh window).  When no relevant great was hit the Wilson
+bound is exactly 0 and the code's `p_lower_bound == 0.0` test discards the block (`pLowerBound_zero`). -/
+theorem osu_speed_deviation_ok (sf : Special ℝ) (E : ErfFacts sf) (c : OsuCalc ℝ) (W : OsuWindowsOK c)
+    (hs : 0 ≤ c.attrs.speedNoteCount) : SpeedDeviationOK sf c := speedDeviationOK_of sf E c W hs
+
+/-- `calculate_deviation` alone: positive result, all partial operations in-domain, for non-negative
+relevant counts -/
+theorem osu_calculate_deviation (sf : Special ℝ) (E : ErfFacts sf) (c : OsuCalc ℝ) (W : OsuWindowsOK c)
+    (great ok meh miss : ℝ) (R : RelevantCountsOK great ok meh miss) :
+    calculateDeviationDom sf c great ok meh miss = true
+      ∧ ∀ d, calculateDeviation sf c great ok meh miss = some d → 0 < d :=
+  ⟨calculateDeviationDom_true sf E c W R, fun d h => calculateDeviation_pos sf E c W R d h⟩
+
+/-- (a) osu!, whole calculation, no hypothesis left on the speed deviation -/
+theorem osu_domain_ok_full (sf : Special ℝ) (E : ErfFacts sf) (a : OsuAttrs ℝ) (m : OsuMods) (s : OsuState)
+    (lazer classic : Bool) (hh : 0 < s.totalHits) (H : OsuAttrsOK (osuCalcOf a m s lazer classic))
+    (W : OsuWindowsOK (osuCalcOf a m s lazer classic))
+    (hu : classic = false → a.nSliders - s.sliderEndHits ≤ a.maxCombo) :
+    osuCalculateDom sf a m s lazer classic = true :=
+  osu_domain_ok sf a m s lazer classic hh H hu (speedDeviationOK_of sf E _ W H.snc_nonneg)
+
+/-- (b) osu!, whole calculation, no hypothesis left on the speed deviation; the speed deviation is
+positive when present -/
+theorem osu_pp_nonneg_full (sf : Special ℝ) (E : ErfFacts sf) (a : OsuAttrs ℝ) (m : OsuMods) (s : OsuState)
+    (lazer classic : Bool) (hh : 0 < s.totalHits) (H : OsuAttrsOK (osuCalcOf a m s lazer classic))
+    (W : OsuWindowsOK (osuCalcOf a m s lazer classic)) :
+    (0 ≤ (osuCalculate sf a m s lazer classic).pp ∧ 0 ≤ (osuCalculate sf a m s lazer classic).ppAim
+      ∧ 0 ≤ (osuCalculate sf a m s lazer classic).ppSpeed ∧ 0 ≤ (osuCalculate sf a m s lazer classic).ppAcc
+      ∧ 0 ≤ (osuCalculate sf a m s lazer classic).ppFlashlight
+      ∧ 0 ≤ (osuCalculate sf a m s lazer classic).effectiveMissCount
+      ∧ (osuCalculate sf a m s lazer classic).effectiveMissCount ≤ (s.totalHits : ℝ))
+    ∧ ∀ sd, (osuCalculate sf a m s lazer classic).speedDeviation = some sd → 0 < sd := by
+  have D := speedDeviationOK_of sf E (osuCalcOf a m s lazer classic) W H.snc_nonneg
+  refine ⟨osu_pp_nonneg sf a m s lazer classic hh H D, ?_⟩
+  have hne : (osuCalcOf a m s lazer classic).state.totalHits ≠ 0 := Nat.pos_iff_ne_zero.mp hh
+  obtain ⟨_, _, _, _, _, f6, _⟩ := osuCalculatorCalculate_fields sf (osuCalcOf a m s lazer classic) hne
+  intro sd hsd
+  exact D.pos sd (by rw [← f6]; exact hsd)
+
 /-- (c) osu!: zero hits ⇒ pp and every component are 0, no speed deviation (full formula, for every
 attribute value, flag and `erf`/`erf_inv`) -/
 theorem osu_zero_hits_zero_pp_full (sf : Special ℝ) (a : OsuAttrs ℝ) (m : OsuMods) (s : OsuState)
@@ -365,6 +406,8 @@ example : OsuAttrsOK
        effectiveMissCount := 1, usingClassicSliderAcc := false } : OsuCalc ℝ) :=
   ⟨by norm_num, by norm_num, by norm_num, by norm_num, by norm_num, by norm_num, by decide,
     fun h => by simp at h, fun _ => by decide, fun _ => by decide⟩
+
+example : RelevantCountsOK (120 : ℝ) 5 1 2 := ⟨by norm_num, by norm_num, by norm_num, by norm_num⟩
 
 example : TaikoAttrsOK ⟨30, 0.5, 5, 1000, false⟩ := ⟨by norm_num, by norm_num, by norm_num⟩
 
